@@ -1211,8 +1211,16 @@ def c11s(texts, be, seps=None):
     FL = yaml.Loader if be == 'py' else getattr(yaml, 'CLoader', None)
     if L is None: return dict(bad=[], outcome='no_c')
     bad = []
+    class _Slow:
+        """file-like object whose read() hands out one to three units at a time: every position of the stream is a refill boundary once"""
+        def __init__(self, data, sizes): self.d = data; self.i = 0; self.k = 0; self.sizes = sizes
+        def read(self, size=-1):
+            n = self.sizes[self.k % len(self.sizes)]; self.k += 1
+            r = self.d[self.i:self.i + n]; self.i += len(r); return r
     for what, run in (('objects', lambda t, multi: [show(d) for d in (yaml.load_all(t, Loader=L) if multi else [yaml.load(t, Loader=L)])]),
-                      ('node tags', lambda t, multi: [_node_sig(n, {}) for n in (yaml.compose_all(t, Loader=L) if multi else [yaml.compose(t, Loader=L)])])):
+                      ('node tags', lambda t, multi: [_node_sig(n, {}) for n in (yaml.compose_all(t, Loader=L) if multi else [yaml.compose(t, Loader=L)])]),
+                      ('objects from a slow text stream', lambda t, multi: [show(d) for d in (yaml.load_all(_Slow(t, [1, 2, 1, 3]), Loader=L) if multi else [yaml.load(t, Loader=L)])]),
+                      ('objects from a slow byte stream', lambda t, multi: [show(d) for d in (yaml.load_all(_Slow(t.encode('utf-8'), [2, 1, 1, 3, 1]), Loader=L) if multi else [yaml.load(t, Loader=L)])])):
         single = []; err = None
         for t in texts:
             try: single += run(t, False)
@@ -1221,8 +1229,9 @@ def c11s(texts, be, seps=None):
         stream = ''.join((sp or '') + t for sp, t in zip(seps or [''] * len(texts), texts))
         got = []; gerr = None
         try:
-            for x in (yaml.load_all(stream, Loader=L) if what == 'objects' else yaml.compose_all(stream, Loader=L)):
-                got.append(show(x) if what == 'objects' else _node_sig(x, {}))
+            src = stream if what in ('objects', 'node tags') else _Slow(stream, [1, 2, 1, 3]) if 'text' in what else _Slow(stream.encode('utf-8'), [2, 1, 1, 3, 1])
+            for x in (yaml.compose_all(src, Loader=L) if what == 'node tags' else yaml.load_all(src, Loader=L)):
+                got.append(_node_sig(x, {}) if what == 'node tags' else show(x))
         except yaml.YAMLError as e: gerr = type(e).__name__
         except Exception as e: gerr = 'NONYAML ' + type(e).__name__
         if got[:len(single)] != single or (err is None) != (gerr is None) or (err is None and len(got) != len(single)):
